@@ -6,6 +6,9 @@ mod c08;
 mod c09;
 mod c10;
 mod c11;
+mod c12;
+mod c13;
+mod c14;
 mod c17;
 mod common;
 mod refmodel;
@@ -103,6 +106,9 @@ fn main() {
         "C09" => c09::run(&ctx),
         "C10" => c10::run(&ctx),
         "C11" => c11::run(&ctx),
+        "C12" => c12::run(&ctx),
+        "C13" => c13::run(&ctx),
+        "C14" => c14::run(&ctx),
         _ => usage(),
     };
     let code = finish(&ctx, &rep, t0.elapsed().as_secs_f64());
